@@ -1,5 +1,10 @@
 package supervisor
 
+import (
+	"github.com/megaease/easegress/pkg/cluster"
+	"github.com/megaease/easegress/pkg/option"
+)
+
 // C20 harness: glue for package supervisor (business controllers only; the traffic-object path is
 // driven from the harness in pkg/object/rawconfigtrafficcontroller).
 
@@ -16,6 +21,7 @@ const (
 	c20CatBiz  = CategoryBusinessController
 	c20CatGate = CategoryTrafficGate
 	c20CatPipe = CategoryPipeline
+	c20CatSys  = CategorySystemController
 	c20Pkg     = "supervisor"
 )
 
@@ -27,6 +33,38 @@ var (
 )
 
 func c20Traffic(k string) bool { return false }
+
+// c20MustNewStaged is MustNew, statement by statement (pkg/supervisor/supervisor.go), with a call
+// of `between` between the creation of the object registry - which starts the registry goroutine -
+// and the registration of the supervisor's watcher: the schedule of MustNew in which the registry
+// goroutine gets ahead of the goroutine that creates the supervisor.
+var c20MustNewStaged = c20StagedMustNew
+
+func c20StagedMustNew(opt *option.Options, cls cluster.Cluster, between func()) *Supervisor {
+	s := &Supervisor{
+		options: opt,
+		cls:     cls,
+
+		firstHandle:     true,
+		firstHandleDone: make(chan struct{}),
+		done:            make(chan struct{}),
+	}
+
+	initObjs := loadInitialObjects(s, opt.InitialObjectConfigFiles)
+
+	s.objectRegistry = newObjectRegistry(s, initObjs)
+	between()
+	s.watcher = s.objectRegistry.NewWatcher(watcherName, FilterCategory(
+		CategoryBusinessController))
+
+	globalSuper = s
+
+	s.initSystemControllers()
+
+	go s.run()
+
+	return s
+}
 
 // c20LiveEntities: everything the supervisor reports as live.
 func c20LiveEntities(s *Supervisor) []*ObjectEntity {
